@@ -507,7 +507,20 @@ func (d *Driver) judgeC19() {
 		}
 		d.judgedInc("C19")
 		exitedBefore := func(step uint64) bool { return x.exit != nil && x.exit.Step < step }
-		if x.done != nil && (t.Fall == nil || x.done.Step < t.SEnd) && !(x.exit != nil && x.exit.Step <= x.done.Step) {
+		// the application itself may cancel the context it gave to Start: the promotion context is
+		// derived from it and goes down at that moment, a moment before the claim does
+		byApp := false
+		if x.done != nil {
+			for _, a := range d.h.Apis {
+				if a.Inst == k[0] && a.Gen == k[1] && a.Kind == ACancelStart && a.SInv <= x.done.Step && a.SInv >= t.SStart {
+					byApp = true
+				}
+			}
+		}
+		// (a callback that had already returned when the context went down does not count; one that
+		// blocks on its context returns *because* of the cancellation, in the same step)
+		exitedFirst := x.exit != nil && x.done != nil && (x.exit.Step < x.done.Step || x.exit.Step == x.done.Step && o.in.cfg.PromoteMode != "block" && x.exit.Ord < x.done.Ord)
+		if x.done != nil && !byApp && (t.Fall == nil || x.done.Step < t.SEnd) && !exitedFirst {
 			d.h.violate("C19", "context-cancelled-during-term", fmt.Sprintf("i%d.%d term from %v: promotion context cancelled at %v while still leading and the callback running", k[0], k[1], t.Start, x.done.T), x.done.T, x.done.Step)
 		}
 		if t.Fall != nil && t.SEnd < d.endStep && !exitedBefore(t.SEnd) {
